@@ -110,6 +110,73 @@ def main(argv: List[str]) -> int:
                             {"input": j, "observed": obs, "replay": f"converter.structure(<input>, lsprotocol.types.{d.pyname})"},
                             True,
                         )
+    # ---- closed enumerations must not have a lookup back door: a `_missing_` hook (or a metaclass __call__) that maps undeclared values to
+    #      members.  Probed with every constant the hook's code mentions, with case / whitespace variants of the declared values and with
+    #      the member names.
+    import enum as _enum
+
+    coerced: Dict[str, List[str]] = {}
+    for ename, ed in mm.enumerations.items():
+        if mm.is_open_enum(ename):
+            continue
+        ecls = getattr(T, ename, None)
+        if ecls is None or not (isinstance(ecls, type) and issubclass(ecls, _enum.Enum)):
+            continue
+        vals = [v["value"] for v in ed["values"]]
+        probes: List[Any] = []
+        if ed["type"]["name"] == "string":
+            for w in vals + [v["name"] for v in ed["values"]]:
+                probes += [w.upper(), w.lower(), w.capitalize(), w.title(), w.swapcase(), " " + w, w + " ", w + "\n"]
+        else:
+            probes += [str(v) for v in vals] + [float(v) + 0.5 for v in vals[:2]] + [float(vals[0]), True, None]
+        hook = None
+        for k in ecls.__mro__:
+            if k in (_enum.Enum, object) or k.__module__ == "enum":
+                continue
+            if "_missing_" in k.__dict__:
+                hook = k.__dict__["_missing_"]
+                break
+        if hook is not None:
+            fn = getattr(hook, "__func__", hook)
+            stack = [fn.__code__]
+            while stack:
+                code = stack.pop()
+                for c in code.co_consts:
+                    if isinstance(c, type(code)):
+                        stack.append(c)
+                    elif isinstance(c, (str, int, float)) and not isinstance(c, bool):
+                        probes.append(c)
+                    elif isinstance(c, (tuple, frozenset)):
+                        probes += [x for x in c if isinstance(x, (str, int, float)) and not isinstance(x, bool)]
+                for nm in code.co_names:
+                    g = getattr(fn, "__globals__", {}).get(nm)
+                    if isinstance(g, dict):
+                        probes += [x for x in list(g.keys()) + list(g.values()) if isinstance(x, (str, int, float))]
+                        for vv in g.values():
+                            if isinstance(vv, dict):
+                                probes += [x for x in list(vv.keys()) + list(vv.values()) if isinstance(x, (str, int, float))]
+                    elif isinstance(g, (tuple, list, set, frozenset)):
+                        probes += [x for x in g if isinstance(x, (str, int, float))]
+        for v in dict.fromkeys(pr for pr in probes if not any(pr == d_ and type(pr) is type(d_) for d_ in vals)):
+            sweep += 1
+            try:
+                got = ecls(v)
+            except (ValueError, TypeError, KeyError):
+                continue
+            except Exception:  # noqa
+                continue
+            if hook is None and isinstance(v, (bool, float)) and any(v == d_ for d_ in vals):
+                # Python's Enum lookup compares with ==: true == 1 and 1.0 == 1.  One obligation for the whole class of enumerations.
+                coerced.setdefault(type(v).__name__, []).append(ename)
+                continue
+            run.violation(f"enum-lookup:{ename}:{v!r}", f"closed enumeration {ename} maps the undeclared value {v!r} to the member {got!r} (cattrs structures an enum-typed property by calling the class)" + (" — through its _missing_ hook" if hook is not None else ""), {"value": v, "member": repr(got), "replay": f"lsprotocol.types.{ename}({v!r})"}, True)
+    if coerced:
+        run.violation(
+            "C13:coercion:number-equal-to-member",
+            f"a JSON boolean or non-integer-typed number that is == a member's value (true == 1, 1.0 == 1) is accepted for integer-valued closed enumerations ({sum(len(v) for v in coerced.values())} cases, e.g. {sorted(set(sum(coerced.values(), [])))[:4]}): Enum lookup compares with ==",
+            {"by_kind": {k: sorted(set(v)) for k, v in coerced.items()}, "replay": "lsprotocol.types.DiagnosticSeverity(True)"},
+            True,
+        )
     # ---- the same, for enumeration-typed properties of an object reached THROUGH a union-typed property of the container (the hook decides
     #      how that object is built: a hand-built alternative skips the enum conversion)
     from lib.sweeps import union_nested_sites
